@@ -61,6 +61,14 @@ def _gen_pool(tape, ctx):
                 pool.append(["and", a, richgen.gen(tape, bp.BOOL, 2, ctx), b])
             else:
                 pool.append([k, a, b])
+    if tape.chance(1, 3, "pool.qbody"):
+        # the body of a quantified sub-formula also occurs on its own (its bound names are then
+        # ordinary free symbols) in another formula of the pool
+        qs = [x for t_ in pool for x in richgen.subterms(t_) if x[0] in bp.QUANT]
+        if qs:
+            q = qs[tape.draw(len(qs), "qbody.which")]
+            pool[tape.draw(len(pool), "qbody.where")] = [tape.choice(["and", "or"], "qbody.op"), q[2],
+                                                         richgen.gen(tape, bp.BOOL, 1, ctx)]
     if tape.chance(1, 3, "pool.stores") and "A" in ctx.symbols:
         # two formulas that share an intermediate store over one constant array value and then branch
         arr_sort = ctx.symbols["A"]
